@@ -215,7 +215,8 @@ def kabsch_sander_ref(x, residues):
        amb_donors = donor residues whose bond list is not decidable within the margins / by the documentation.
 
     H(i) = N(i) + 0.1 nm * unit(C(i-1) - O(i-1)), residue i-1 being the preceding residue of the same chain;
-    the first residue of a chain has no amide hydrogen from a peptide bond (DSSP sets H = N, giving E = 0): never a donor.
+    the first residue of a chain has no amide hydrogen from a peptide bond (DSSP sets H = N, giving E = 0): never a donor;
+    likewise a residue whose predecessor lacks C or O (DSSP drops incomplete residues, the follower starts a new segment).
     E = 2.7888 (1/r_ON + 1/r_CH - 1/r_OH - 1/r_CN) kcal/mol (nm), clamped at -9.9;  bond iff E < -0.5;
     prolines do not donate;  C=O(i) -> N-H(i+1) is not considered;  the two lowest energies per donor are kept."""
     n = len(residues)
@@ -228,11 +229,8 @@ def kabsch_sander_ref(x, residues):
         if d == 0:
             continue
         rp = residues[d - 1]
-        if rp["C"] is None and rp["O"] is None:
-            continue                                     # nothing to build a hydrogen from
         if rp["C"] is None or rp["O"] is None:
-            amb.add(d)                                   # half a carbonyl: undocumented
-            continue
+            continue                                     # no complete carbonyl to build the hydrogen from: no amide H, no bonds
         chain_start = rp["chain"] != rd["chain"]
         co = x[rp["C"]] - x[rp["O"]]
         nco = np.linalg.norm(co)
@@ -281,6 +279,18 @@ def kabsch_sander_ref(x, residues):
         for e, a in cand[:2]:
             bonds[(a, d)] = e
     return bonds, amb
+
+
+def no_carbonyl_donors(residues):
+    """complete residues whose predecessor lacks C or O (exactly one of them: `half`): no hydrogen can be built"""
+    out, half = set(), set()
+    for d in range(1, len(residues)):
+        rp = residues[d - 1]
+        if rp["C"] is None or rp["O"] is None:
+            out.add(d)
+            if (rp["C"] is None) != (rp["O"] is None):
+                half.add(d)
+    return out, half
 
 
 def chain_start_residues(residues):
